@@ -911,8 +911,62 @@ class Lemmas:
             from . import eqrules
             eqrules.require(self.chk, self.P, ["lexer::token::TokenKind"], "`tok.kind == K` / `at(K)` / `expect(K)` test the token kind itself")
             self._tka_rounds = T.run(["parsed_test_case::ParsedTestCase::parse"])
+            self._tka_alt = None
+            if self.P_tka is not self.P:
+                # two sound readings of one program: a new helper as a function with a summary (keeps the Ok/Err correlation of its
+                # result) or spliced into its caller (keeps the correlation between a kind test and the consumption that follows it
+                # inside the helper).  Whatever either reading proves holds: the progress obligation may be taken from the spliced one.
+                try:
+                    T2 = tkamod.TKA(self.P)
+                    T2.run(["parsed_test_case::ParsedTestCase::parse"])
+                    self._tka_alt = T2
+                except Exception:
+                    self._tka_alt = None
             self._tka = T
         return self._tka
+
+    def tka_for_progress(self):
+        """The reading of the parser under which the progress obligation is judged (see tka())."""
+        from ..core import tka as tkamod
+        T = self.tka()
+        if getattr(self, "_tka_alt", None) is None:
+            return T
+
+        class _Probe:
+            def __init__(self):
+                self.bad = 0
+                self.analysed = {}
+
+            def fail(self, *a, **k):
+                self.bad += 1
+                return False
+
+            def require(self, cond, *a, **k):
+                if not cond:
+                    self.bad += 1
+                return bool(cond)
+
+            def ok(self, *a, **k):
+                return True
+
+            def floor(self, *a, **k):
+                return True
+
+            def anchor(self, role, v):
+                if not v:
+                    self.bad += 1
+                return bool(v)
+        p1, p2 = _Probe(), _Probe()
+        try:
+            tkamod.progress(T, p1)
+            if p1.bad:
+                tkamod.progress(self._tka_alt, p2)
+                if not p2.bad:
+                    self.chk.analysed["tka_progress_reading"] = "new helpers spliced into their callers (as functions with summaries their minimum consumption is 0)"
+                    return self._tka_alt
+        except Exception:
+            pass
+        return T
 
     def lemma_TKA(self):
         T = self.tka()
